@@ -62,6 +62,16 @@ Proof.
   intros r Hr Hp. split; [exact (final_after_cancel r Hr Hp)|]. exact (final_alone r Hr Hp).
 Qed.
 
+(* ... and Run does return: once the context is cancelled, every execution from every reachable
+   state -- any interleaving, arrivals, failures -- is finite (bounded by the group's measure plus
+   the two steps of Run itself: begin and end of the final RA) and can never stop before Run has
+   returned, because until then some goroutine can always move.  (Fairness -- an enabled goroutine
+   is eventually scheduled -- is the Go runtime's; the bound holds for every scheduling.) *)
+Theorem C08_returns : forall r, rreach (mkO true true) (mkG true true true true true true) r -> gc (grp r) = true ->
+  (forall l, rpath r l -> length l <= measure (grp r) + 2)%nat /\
+  (ph r <> PReturned -> rsteps (mkO true true) (mkG true true true true true true) r <> []).
+Proof. exact run_returns. Qed.
+
 (* what each piece is needed for: with the scheduler not waiting for its workers (the repaired
    defect 224e990), or with either ordering of Run missing, a state is reachable in which the final
    RA is in flight together with another transmission *)
@@ -89,4 +99,5 @@ Print Assumptions C08_quiet.
 Print Assumptions C08_returns_partial.
 Print Assumptions C08_orderings.
 Print Assumptions C08_final_alone.
+Print Assumptions C08_returns.
 Print Assumptions C08_legacy_overtaken.
